@@ -35,7 +35,7 @@ unaudited = 0
 def mism(ctx, what, expected, got):
     if len(mismatches) < 60:
         mismatches.append({'ctx': ctx, 'what': what, 'expected': expected,
-                           'got': got, 'impl': impl})
+                           'got': got, 'impl': impl, 'case_idx': childlib.CASE[0]})
 
 
 class ForeignError(Exception):
@@ -433,7 +433,7 @@ def run_threads(spec):
 
 
 if job['mode'] == 'schedules':
-    for case in job['cases']:
+    for childlib.CASE[0], case in enumerate(job['cases']):
         try:
             run_schedule(case)
             if job.get('leaks') and case.get('leak'):
